@@ -125,26 +125,10 @@ def gen_Xsd(repo: pathlib.Path) -> str:
     if not m:
         raise ExtractError(f"_ESCAPE_BACKSLASH_X_RE has an unknown shape: {rx!r}")
     cls_x = _class_ranges(m.group(1))
-<<<<<<< HEAD
-    for fname in ("_undo_escaping_backslash_x_in_pattern",):
-        fn = _func(mod, fname)
-=======
-    rxu = _regex_source(mod, "_ESCAPE_BACKSLASH_X_U_U_RE")
-    m = re.fullmatch(r"\(\\\\\\\\\|\\\\x\(\[([^\]]*)\]\{2\}\)\|\\\\u\(\[([^\]]*)\]\{4\}\)\|\\\\U\(\[([^\]]*)\]\{8\}\)\)", rxu)
-    if not m:
-        raise ExtractError(f"_ESCAPE_BACKSLASH_X_U_U_RE has an unknown shape: {rxu!r}")
-    if not (m.group(1) == m.group(2) == m.group(3)):
-        raise ExtractError("the three character classes of _ESCAPE_BACKSLASH_X_U_U_RE differ")
-    cls_xuu = _class_ranges(m.group(1))
-
-    # each un-escaping function — itself or through the module-level helpers it calls — iterates over the matches of ITS
+    # the un-escaping function — itself or through the module-level helpers it calls — iterates over the matches of ITS
     # expression and skips the escaped backslash with a `continue`
-    for fname, rname in (
-        ("_undo_escaping_backslash_x_in_pattern", "_ESCAPE_BACKSLASH_X_RE"),
-        ("_undo_escaping_backslash_x_u_and_U_in_pattern", "_ESCAPE_BACKSLASH_X_U_U_RE"),
-    ):
+    for fname, rname in (("_undo_escaping_backslash_x_in_pattern", "_ESCAPE_BACKSLASH_X_RE"),):
         scopes = extract._reachable_functions(mod, _func(mod, fname))
->>>>>>> 2082a4740a9a6cea38afcc12d3ca43dfbc7b1c65
         skips = [
             n for scope in scopes for n in ast.walk(extract.expand_locals(scope))
             if isinstance(n, ast.If) and isinstance(n.test, ast.Compare) and isinstance(n.test.comparators[0], ast.Constant)
